@@ -151,10 +151,13 @@ Theorem C06_ctor_ddt_gauss_kin : forall (inc nrm : bool) zl zs mu sg j0 j1 v0 v1
   /\ field o ["_ddt_gauss_likelihood"; "_ddt_sigma"] = Some (Ctor.num sg)
   /\ field o ["num_data"] = Some (VInt (1 + 2)).
 Proof. exact ddt_gauss_kin_ctor. Qed.
-Theorem C06_ctor_ddt_hist_kin : forall (inc nrm : bool) zl zs (samples weights : val) j0 j1 v0 v1 (cm cj : val) rg cu,
+Theorem C06_ctor_ddt_hist_kin : forall (inc nrm : bool) zl zs (samples weights kern bw nb : val) j0 j1 v0 v1 (cm cj : val) rg cu,
   exists o,
   yields Ctor.Gc 80 (CClass "DdtHistKinLikelihood" src_DdtHistKinLikelihood_init) None [Ctor.num zl; Ctor.num zs; samples]
-    (kin_args (VList [Ctor.num v0; Ctor.num v1]) (VList [Ctor.num j0; Ctor.num j1]) cm cj inc nrm ++ [("ddt_weights", weights)]) rg cu o cu []
+    (kin_args (VList [Ctor.num v0; Ctor.num v1]) (VList [Ctor.num j0; Ctor.num j1]) cm cj inc nrm ++ [("ddt_weights", weights); ("kde_kernel", kern); ("bandwidth", bw); ("nbins_hist", nb)]) rg cu o cu []
+  /\ field o ["_tdLikelihood"; "kde_kernel"] = Some kern
+  /\ field o ["_tdLikelihood"; "bandwidth"] = Some bw
+  /\ field o ["_tdLikelihood"; "nbins_hist"] = Some nb
   /\ field o ["_kinlikelihood"; "_normalized"] = Some (VBool nrm)
   /\ field o ["_kinlikelihood"; "_sigma_sys_error_include"] = Some (VBool inc)
   /\ field o ["_kinlikelihood"; "_sigma_v_measured"] = Some (VArr [Ctor.num v0; Ctor.num v1])
